@@ -58,6 +58,19 @@ def gen_case(rng, max_n=8, p_fail=0.08, p_flag=0.2, mode_mix=True):
             case["mode"] = rng.choice(["call", "setup_then_call"])
     if reconf:
         case["reconf"] = gen_reconf(rrng, case)
+    # debug nodes (only nodes all of whose dependents are debug nodes), run with RUN_DEBUG_NODES on or off
+    drng = random.Random(rrng.getrandbits(32))
+    if drng.random() < 0.2 and case["mode"] in ("call", "exec"):
+        dbg = set()
+        eset_ = [tuple(e) for e in case["edges"]]
+        for j in reversed(range(n)):
+            succ = [b for a, b in eset_ if a == j] + [int(k) for k, fl in flags.items() if fl[0] == "node" and fl[1] == j]
+            if all(x in dbg for x in succ) and j not in (case.get("setup") or []) and drng.random() < 0.5:
+                dbg.add(j)
+        if case["mode"] == "exec" and case.get("target"):
+            dbg -= set(case["target"])
+        case["debug"] = sorted(dbg)
+        case["run_debug"] = drng.random() < 0.7
     return case
 
 
@@ -126,6 +139,20 @@ CORPUS = [
     dict(kind="sched", n=3, edges=[], attrs=[dict(priority=0, is_sequential=False, resource="thread"), dict(priority=1, is_sequential=False, resource="thread"), dict(priority=2, is_sequential=False, resource="thread")], flags={"1": ["node", 0, 0], "2": ["node", 0, 1]}, rets=[[1, 0], 1, 1], fails=[], maxc=2, is_async=True, mode="call"),
     # flag from a node result (falsy)
     dict(kind="sched", n=3, edges=[[0, 2]], attrs=[dict(priority=0, is_sequential=False, resource="thread")] * 3, flags={"2": ["node", 1]}, rets=[1, 0, 1], fails=[], maxc=2, is_async=False, mode="call"),
+]
+
+
+# cases run WITHOUT the controller and with node bodies that take real time (0.12 s): waits that give up after a
+# timeout, polling loops, ... are only visible when completions are not instantaneous
+def _a(p, seq, r):
+    return dict(priority=p, is_sequential=seq, resource=r)
+
+
+SLOW_CORPUS = [
+    dict(kind="sched", n=3, edges=[], attrs=[_a(5, True, "async-thread"), _a(1, False, "thread"), _a(0, False, "main-thread")], flags={}, rets=[1, 1, 1], fails=[], maxc=2, is_async=False, mode="call"),
+    dict(kind="sched", n=3, edges=[], attrs=[_a(5, True, "async-thread"), _a(1, False, "thread"), _a(0, False, "main-thread")], flags={}, rets=[1, 1, 1], fails=[], maxc=2, is_async=True, mode="call"),
+    dict(kind="sched", n=4, edges=[[0, 1]], attrs=[_a(0, False, "thread"), _a(5, True, "thread"), _a(1, False, "async-thread"), _a(0, False, "thread")], flags={}, rets=[1] * 4, fails=[], maxc=3, is_async=False, mode="call"),
+    dict(kind="sched", n=4, edges=[[0, 3], [1, 3]], attrs=[_a(2, False, "async-thread"), _a(1, False, "thread"), _a(0, True, "main-thread"), _a(0, False, "async-thread")], flags={}, rets=[1] * 4, fails=[], maxc=2, is_async=True, mode="call"),
 ]
 
 
@@ -231,7 +258,7 @@ def segments(trace, ctl):
     curseg = None
     for e in trace:
         if e[0] == "BEGIN":
-            curseg = dict(cfg=ctl.cfgs[e[1]], evs=[])
+            curseg = dict(cfg=dict(ctl.cfgs[e[1]], invoker=getattr(ctl, "invoker", None)), evs=[])
             segs.append(curseg)
             continue
         if curseg is None:
@@ -307,6 +334,14 @@ def to_labels(evs):
         else:
             raise Unparsable("unexpected event %r" % (e,))
     return out, end
+
+
+def end_of(evs):
+    """the outcome of an execution from its END event alone (for traces the model's label parser rejects)"""
+    for e in evs:
+        if e[0] == "END":
+            return ("ok",) if e[1] == "ok" else ("raise", tz.failing_node_of(e[2]), e[2])
+    return None
 
 
 # ------------------------------------------------------------------------------ monitors (independent of the model)
@@ -428,6 +463,10 @@ def monitors(cfg, trace_seg_all, labels, end):
             else:
                 if not e[2]:
                     errs.append(("C04", "main-thread node %s ran on a worker thread" % n))
+                elif cfg.get("invoker") is not None and len(e) > 4 and e[4] != cfg["invoker"]:
+                    errs.append(("C04", "main-thread node %s ran on the scheduler's thread, which is not the thread that invoked the DAG" % n))
+            if r != "main-thread" and cfg.get("invoker") is not None and len(e) > 4 and e[4] == cfg["invoker"]:
+                errs.append(("C04", "pooled node %s ran on the invoking thread" % n))
             others = [x for x in live if x != n]
             if cfg["seq"].get(n) and others:
                 errs.append(("C05", "sequential node %s entered while %s running" % (n, others)))
